@@ -199,6 +199,7 @@ package nfsv4
 
 //@ func (*leavesToClose).closeAll
 //@   props C18
+//@   loop 0 exhaustive
 //@   loop 0 invariant vclosed(nil) == old(vclosed(nil)) + rangeindex + 1 && rangeindex >= -1 && rangeindex < len(ll.leaves) && ll == old(ll) &&
 //@             (forall k ref :: k != nil ==> vclosed(k) == old(vclosed(k)))
 //@   modifies vclosed[nil]
